@@ -89,6 +89,13 @@ inline R growth(const V& a, size_t n, R& lunorm) {
     lunorm = norm_inf(mul(absv(l), n, n, absv(u), n), n, n);
     R na = norm_inf(a, n, n); return na > 0 ? lunorm / na : 1e30L;
 }
+// transcription of the library's static pre-pivot (column-max scan on the original matrix, strict >, first maximum); used ONLY to
+// recognise the named deviation D16 of solve<SimpleInvPiv> with a matrix right-hand side (TLC re-computes it with Linalg!StaticPivot)
+inline std::vector<size_t> static_pivot(const V& a, size_t n) {
+    std::vector<size_t> p(n); for (size_t i = 0; i < n; ++i) p[i] = i;
+    for (size_t j = 0; j < n; ++j) { size_t mx = j; for (size_t i = j; i < n; ++i) if (fabsl(a[i * n + j]) > fabsl(a[mx * n + j])) mx = i; if (mx != j) std::swap(p[j], p[mx]); }
+    return p;
+}
 template<class T> inline V lift(const T* p, size_t len) { V v(len); for (size_t i = 0; i < len; ++i) v[i] = (R)p[i]; return v; }
 inline V lift_scaled(const int* p, size_t len, int sA) { V v(len); R d = ldexpl(1.0L, sA); for (size_t i = 0; i < len; ++i) v[i] = (R)p[i] / d; return v; }
 
@@ -310,6 +317,13 @@ template<class T, size_t N, size_t K, int S, int F> static void solve_case(const
     for (size_t j = 0; j < k; ++j) { R rn = 0, bn = 0; bool bad = false;
         for (size_t i = 0; i < n; ++i) { R v = fabsl(Rm[i * k + j]); if (!fin(v)) bad = true; if (v > rn) rn = v; R w = fabsl(Br[i * k + j]); if (w > bn) bn = w; }
         long long rj = bad ? SAT : milli(rn, (R)n * eps_of<T>() * c * bn); if (rj > r) r = rj; }
+    // named deviation D16 (only recorded for SimpleInvPiv): residual of (P A)(P X) = B for the static pre-pivot P
+    long long r_dev = 0; int hasdev = 0; std::vector<long long> pdev;
+    if (S == 1) { hasdev = 1; std::vector<size_t> p = static_pivot(Ar, n); pdev.assign(p.begin(), p.end());
+        V Rd = sub(mul(rows(Ar, n, n, p), n, n, rows(Xr, n, k, p), k), Br);
+        for (size_t j = 0; j < k; ++j) { R rn = 0, bn = 0; bool bad = false;
+            for (size_t i = 0; i < n; ++i) { R v = fabsl(Rd[i * k + j]); if (!fin(v)) bad = true; if (v > rn) rn = v; R w = fabsl(Br[i * k + j]); if (w > bn) bn = w; }
+            long long rj = bad ? SAT : milli(rn, (R)n * eps_of<T>() * c * bn); if (rj > r_dev) r_dev = rj; } }
     int xs = 0; std::vector<long long> Xs; bool exact = false;
     if (n <= EXACT_MAX_N && dyadic_img(x.data(), n * k, xs, Xs)) exact = product_fits(ints(md.a, n * n), n, n, Xs, k) && xs + md.sA < 28;
     if (!exact) { Xs.clear(); xs = 0; }
@@ -318,6 +332,7 @@ template<class T, size_t N, size_t K, int S, int F> static void solve_case(const
     ev.num("k", (long long)k).arr("B", bi.data(), n * k);
     ev.s += "},\"out\":{\"x\":0";
     ev.ints("shape", shape).num("exact", exact ? 1 : 0).num("xs", xs).ints("Xs", Xs).num("r", r).num("cond_milli", milli(c, 1.0L));
+    ev.num("hasdev", hasdev).num("r_dev", r_dev).ints("pdev", pdev);
     ev.s += "}"; ev.emit();
 }
 
@@ -353,7 +368,10 @@ template<class T, size_t N, int S, int PK, int F> static void qr_case(const char
     // determinant via QR against the product of R's diagonal
     long long r_det = 0; int hasdet = 0; T dq = 0; R prod = 1;
     for (size_t i = 0; i < n; ++i) prod *= Rr[i * n + i];
-    if (S == 0) { hasdet = 1; dq = DetRun<T,N,S>::template go<F>(A, Z); r_det = milli(fabsl((R)dq - prod), (R)n * eps_of<T>() * fabsl(prod)); }
+    if (S == 0) { dq = DetRun<T,N,S>::template go<F>(A, Z);
+        // the determinant must be representable in T (a product of 33 diagonal entries of magnitude 100 is not, in float): otherwise skipped (hasdet = 2)
+        bool inrange = fin(prod) && fabsl(prod) < (R)std::numeric_limits<T>::max() / 1024 && fabsl(prod) > (R)std::numeric_limits<T>::min() * 1024;
+        hasdet = inrange ? 1 : 2; r_det = inrange ? milli(fabsl((R)dq - prod), (R)n * eps_of<T>() * fabsl(prod)) : 0; }
     // exact image
     int qs = 0, rs = 0; std::vector<long long> Qs, Rs; bool exact = false; long long dets = 0; int detexact = 0;
     if (n <= EXACT_MAX_N && dyadic_img(Q.data(), n * n, qs, Qs) && dyadic_img(Rm.data(), n * n, rs, Rs)) {
@@ -457,7 +475,7 @@ class LinalgCheck(Check):
         self.plan_stats = {"matrices": len(items),
                            "matrices_by_family": {f: sum(1 for m in items if m["fam"] == f) for f in sorted({m["fam"] for m in items})},
                            "permuted_matrices": sum(1 for m in items if m["v"] > 0),
-                           "non_involutive_permutations": sum(1 for m in items if m["v"] > 0 and [m["sigma"][s] for s in m["sigma"]] != list(range(m["n"]))),
+                           "non_involutive_permutations": sum(1 for m in items if any(m["sigma"][m["sigma"][i]] != i for i in range(m["n"]))),
                            "calls_by_strategy": {s: sum(1 for c in cases if c["strategy"] == s) for s in sorted({c["strategy"] for c in cases})},
                            "calls_by_form": {s: sum(1 for c in cases if c["form"] == s) for s in sorted({c["form"] for c in cases})},
                            "sizes": sorted({m["n"] for m in items})}
@@ -491,12 +509,23 @@ class LinalgCheck(Check):
         key = "%s_%s_%s" % (KIND_SHORT[self.kind], c["T"], size_class(c["n"], ctx.tier))
         if c["n"] >= 64:
             key += "_" + c["strategy"]          # LU-based strategies cost ~40 s each at n = 65
+        elif c["n"] >= 32:
+            s = c["strategy"]                   # a pivoted strategy shares its kernels with the un-pivoted one: one TU per pair
+            key += "_" + ("blocklu" if s.startswith("BlockLU") else "simplelu" if s.startswith("SimpleLU") else "other")
         return key
 
     def units(self, ctx, plan, cfgname):
         groups = {}
         for c in plan:
             groups.setdefault(self.unit_key(ctx, c), []).append(c)
+        # cap a TU at ~70 distinct template instantiations (compile time is superlinear in TU size): split by order, then by strategy
+        for level in ("n", "strategy"):
+            for key in sorted(groups):
+                cs = groups[key]
+                if len({self.stmt(c).split("(")[0] for c in cs}) > 70 and len({c[level] for c in cs}) > 1:
+                    del groups[key]
+                    for c in cs:
+                        groups.setdefault("%s_%s%s" % (key, level[0], c[level]), []).append(c)
         units = []
         for key in sorted(groups):
             cs = sorted(groups[key], key=lambda c: c["case"])
